@@ -612,9 +612,7 @@ type c28Sig struct {
 }
 
 var c28Known = []c28Sig{
-	{"C28-nul-byte-quote", regexp.MustCompile(`cannot quote character at byte \d+: shell strings cannot contain null bytes`), nil, nil},
 	{"C28-extglob-unterminated", regexp.MustCompile(`regexp: Compile\(.*\\x00`), nil, nil},
-	{"C28-params-o-nil-stdout", regexp.MustCompile(`nil pointer dereference`), []string{"interp.(*Runner).outf"}, []string{"interp.Params", "interp.New"}},
 }
 
 func c28Classify(msg, frames string) string {
